@@ -5,7 +5,7 @@
    Matrices are lists of rows; q_normal_eq p X y b  is  X^T (y - X b) = 0. *)
 From Coq Require Import List Arith Lia Bool ZArith Ring QArith Qcanon.
 From NV.Lib Require Import RingMat C05Lin.
-From NV.C05 Require Import Model Proofs Proofs2.
+From NV.C05 Require Import Model Proofs Proofs2 Proofs3 Proofs4.
 Import ListNotations.
 Close Scope Qc_scope.
 Close Scope Q_scope.
@@ -199,6 +199,125 @@ Theorem normal_eq_optimal_any_ordered_ring :
 Proof. exact C05Lin.normal_eq_optimal. Qed.
 Print Assumptions normal_eq_optimal_any_ordered_ring.
 
+(* ------------------------------------------------------------------ Kalman engine (fff_glm_kalman.c) *)
+Lemma Qc_eqb_false (a b : Qc) : Qc_eq_bool a b = false -> a <> b.
+Proof. unfold Qc_eq_bool. destruct (Qc_eq_dec a b); [discriminate|auto]. Qed.
+Lemma Qc_div_inv (a : Qc) : a <> q0 -> Qcmult (Qcdiv q1 a) a = q1.
+Proof. intros H. unfold Qcdiv. rewrite Qcmult_1_l. now apply Qcmult_inv_l. Qed.
+Lemma kf_lambda_init : Qcmult kf_lambda kf_init_var = q1.
+Proof. apply Qc_is_canon. vm_compute. reflexivity. Qed.
+Lemma Qc_mul_nonneg (a b : Qc) : Qcle q0 a -> Qcle q0 b -> Qcle q0 (Qcmult a b).
+Proof.
+  unfold Qcle. cbn [this Q2Qc q0 Qcmult]. rewrite !Qred_correct. intros Ha Hb.
+  now apply Qmult_le_0_compat.
+Qed.
+Lemma Qc_lambda_nonneg : Qcle q0 kf_lambda.
+Proof. unfold Qcle. vm_compute. discriminate. Qed.
+Lemma Qc_one_pos : ~ Qcle q1 q0.
+Proof. unfold Qcle. vm_compute. intros H. now apply H. Qed.
+
+(* PARTIAL with respect to "equals the batch OLS solution": what is proved, for every design
+   (any rank) and every data vector, is the exact characterisation of what the C computes -
+   the filter never divides by zero; after all rows its estimate b satisfies
+       X'(y - X b) = lambda b,  lambda = 1/INIT_VAR = 1e-7
+   (the normal equations up to the proper prior the C starts from), its ssd is
+   RSS(b) + lambda |b|^2 and t = n.  Not proved: the limit lambda -> 0 (b -> batch OLS); the C
+   never takes it either (this is the 1e-7-relative gap seen between kalman and ols engines). *)
+Theorem kalman_ols_equals_batch_partial : forall p X y,
+    rows_len p X -> length y = length X ->
+    exists st, q_kf_fit p kf_init_var X y = Some st
+               /\ q_vm p (q_resid X y (kb st)) X = q_vscale kf_lambda (kb st)
+               /\ kssd st = Qcplus (q_rss X y (kb st)) (Qcmult kf_lambda (q_dot (kb st) (kb st)))
+               /\ kt st = length X.
+Proof.
+  intros p X y HX Hy.
+  destruct (kf_fit_total Qc q0 q1 Qcplus Qcmult Qcminus Qcdiv Qcopp Qcring_th Qc_eq_bool
+              Qc_eqb_false Qc_div_inv p kf_lambda kf_init_var kf_lambda_init Qcle Qcle_refl Qcle_trans
+              Qc_le_add Qc_sq_nonneg Qc_mul_nonneg Qc_lambda_nonneg Qc_one_pos Qc_eqb_true X y HX Hy)
+    as [st Hst].
+  exists st. split; [exact Hst|]. split.
+  - exact (kf_normal_eq_defect Qc q0 q1 Qcplus Qcmult Qcminus Qcdiv Qcopp Qcring_th Qc_eq_bool
+             Qc_eqb_false Qc_div_inv p kf_lambda kf_init_var kf_lambda_init X y st HX Hy Hst).
+  - exact (kf_ssd_is_penalised_rss Qc q0 q1 Qcplus Qcmult Qcminus Qcdiv Qcopp Qcring_th Qc_eq_bool
+             Qc_eqb_false Qc_div_inv p kf_lambda kf_init_var kf_lambda_init X y st HX Hy Hst).
+Qed.
+Print Assumptions kalman_ols_equals_batch_partial.
+
+(* the one-step algebra, for every step: a call of fff_glm_KF_iterate on row (x, eta) maps a state
+   satisfying the invariant (Vb symmetric, Vb (X'X + lambda I) = I, (X'X + lambda I) b = X'y,
+   ssd = y'y - b'X'y, t = rows seen) for the rows seen so far to one satisfying it with the row appended *)
+Theorem kalman_step_algebra : forall p X y st x eta st',
+    rows_len p X -> length y = length X -> length x = p ->
+    Inv Qc q0 Qcplus Qcmult Qcminus p kf_lambda X y st ->
+    kf_step Qc q0 q1 Qcplus Qcmult Qcminus Qcdiv Qcopp Qc_eq_bool st (x, eta) = Some st' ->
+    Inv Qc q0 Qcplus Qcmult Qcminus p kf_lambda (X ++ [x]) (y ++ [eta]) st'.
+Proof.
+  intros. eapply (kf_step_inv Qc q0 q1 Qcplus Qcmult Qcminus Qcdiv Qcopp Qcring_th Qc_eq_bool
+                    Qc_eqb_false Qc_div_inv p kf_lambda); eauto.
+Qed.
+Print Assumptions kalman_step_algebra.
+
+(* ------------------------------------------------------------------ contrasts *)
+(* an estimable contrast c1 = X1'a and its image c2 = M'c1 under X2 = X1 M (same column space;
+   P1, P2 the pinv oracles): same effect, same c cov c', same dispersion, same t - for every
+   function standing for sqrt *)
+Theorem contrast_invariant_reparam : forall (rsqrt : Qc -> Qc) n p X1 X2 M N P1 P2 y a,
+    length X1 = n -> rows_len p X1 -> rows_len p X2 ->
+    length M = p -> rows_len p M -> length N = p -> rows_len p N ->
+    X2 = q_mm p X1 M -> X1 = q_mm p X2 N ->
+    length P1 = p -> rows_len n P1 -> length P2 = p -> rows_len n P2 ->
+    penrose Qc q0 Qcplus Qcmult n p X1 P1 -> penrose Qc q0 Qcplus Qcmult n p X2 P2 ->
+    length y = n -> length a = n ->
+    let c1 := q_vm p a X1 in
+    let c2 := q_vm p c1 M in
+    let b1 := q_mv P1 y in
+    let b2 := q_mv P2 y in
+    let disp1 := Qcdiv (q_rss X1 y b1) (qofZ (dof_shape Qc X1)) in
+    let disp2 := Qcdiv (q_rss X2 y b2) (qofZ (dof_shape Qc X2)) in
+    c2 = q_vm p a X2
+    /\ con_effect Qc q0 Qcplus Qcmult c2 b2 = con_effect Qc q0 Qcplus Qcmult c1 b1
+    /\ con_quad Qc q0 Qcplus Qcmult p n P2 c2 = con_quad Qc q0 Qcplus Qcmult p n P1 c1
+    /\ disp2 = disp1
+    /\ con_t Qc Qcmult Qcdiv rsqrt (con_effect Qc q0 Qcplus Qcmult c2 b2) (con_quad Qc q0 Qcplus Qcmult p n P2 c2) disp2
+       = con_t Qc Qcmult Qcdiv rsqrt (con_effect Qc q0 Qcplus Qcmult c1 b1) (con_quad Qc q0 Qcplus Qcmult p n P1 c1) disp1.
+Proof.
+  intros rsqrt n p X1 X2 M N P1 P2 y a.
+  exact (Proofs4.contrast_invariant_reparam Qc q0 q1 Qcplus Qcmult Qcminus Qcdiv Qcopp Qcring_th Qcle
+           Qcle_refl Qcle_trans Qcle_antisym Qc_le_add Qc_sq_nonneg Qc_sq_zero rsqrt qofZ
+           n p X1 X2 M N P1 P2 y a).
+Qed.
+Print Assumptions contrast_invariant_reparam.
+
+(* ------------------------------------------------------------------ the exact AR block fit is column-wise *)
+Theorem ar_block_fit_columnwise : forall n p steps X l Yb k,
+    0 < n -> length Yb = n -> rows_len k Yb ->
+    let B := ar_block_beta Qc q0 q1 Qcplus Qcmult Qcminus Qcdiv Qc_eq_bool qofZ p steps X l Yb in
+    length B = p /\ rows_len k B
+    /\ forall j, j < k ->
+                 q_col j B = ar_voxel_beta Qc q0 q1 Qcplus Qcmult Qcminus Qcdiv Qc_eq_bool qofZ p steps X l (q_col j Yb).
+Proof.
+  intros n p steps X l Yb k.
+  exact (ar_block_columnwise Qc q0 q1 Qcplus Qcmult Qcminus Qcdiv Qcopp Qcring_th Qc_eq_bool qofZ
+           n p steps X l Yb k).
+Qed.
+Print Assumptions ar_block_fit_columnwise.
+
+(* hence the whole exact GLM ar1 pipeline gives every voxel the AR(1) fit under its own label *)
+Theorem glm_ar1_voxelwise : forall n p V steps X Y labels v,
+    0 < n -> length Y = n -> rows_len V Y -> length labels = V -> v < V ->
+    q_col v (q_glm_ar1_beta p steps X Y labels)
+    = ar_voxel_beta Qc q0 q1 Qcplus Qcmult Qcminus Qcdiv Qc_eq_bool qofZ p steps X (nth v labels 0%Z) (q_col v Y).
+Proof.
+  intros n p V steps X Y labels v Hn HY HYr HL Hv.
+  unfold q_glm_ar1_beta, glm_ar1_beta.
+  apply (Proofs2.glm_grouping_scatter Qc q0 n p V) ; auto.
+  - intros l Yb k LY HYb.
+    exact (ar_block_columnwise Qc q0 q1 Qcplus Qcmult Qcminus Qcdiv Qcopp Qcring_th Qc_eq_bool qofZ
+             n p steps X l Yb k Hn LY HYb).
+  - intros l y _. unfold ar_voxel_beta. now rewrite map_length, seq_length.
+Qed.
+Print Assumptions glm_ar1_voxelwise.
+
 (* ------------------------------------------------------------------ engine agreement *)
 (* FINDING: the Kalman engine of nipy.labs.glm returns s2 = RSS/n together with
    dof = n - p, the OLS engine returns s2 = RSS/(n - p): the clause "the labs GLM
@@ -239,4 +358,13 @@ Proof. vm_compute. reflexivity. Qed.
 
 (* astype(int) truncates toward zero *)
 Example trunc_toward_zero : (qtrunc (qfrac (-7) 2), qtrunc (qfrac 7 2)) = ((-3)%Z, 3%Z).
+Proof. vm_compute. reflexivity. Qed.
+
+(* the Kalman model on exX, first voxel of exY: the values fff_glm_KF_fit returns
+   (2.55405392..., 0.20270273...; ssd 9.3918925...; s2 = ssd/5; s2_cor = ssd/3) *)
+Example kalman_example :
+  kf_close 0 5 2 (q_kf_fit 2 kf_init_var exX (zvec [1;3;4;5;2]%Z))
+           [qfrac 18900000150000000 7400000440000001; qfrac 1500000360000000 7400000440000001]
+           (qfrac 69500008990000055 7400000440000001) (qfrac 13900001798000011 7400000440000001)
+           (qfrac 69500008990000055 22200001320000003) 5 = true.
 Proof. vm_compute. reflexivity. Qed.
